@@ -675,6 +675,18 @@ impl LinkRelay<OutputHandle> {
         }
     }
 
+    /// The session stopped: every send that still awaits its outcome is woken
+    pub(crate) fn abandon_delivery_waiters(&mut self) {
+        if let LinkRelay::Sender { unsettled, .. } = self {
+            let mut guard = unsettled.write();
+            if let Some(map) = guard.as_mut() {
+                for message in map.values_mut() {
+                    message.abandon_waiter();
+                }
+            }
+        }
+    }
+
     /// Returns whether an echo is needed
     #[cfg_attr(feature = "tracing", tracing::instrument(skip_all))]
     pub(crate) fn on_incoming_disposition(
